@@ -134,6 +134,29 @@ mut("C20", "reaction-rows", E + "Simulations/_simu.py", "            reaction[do
 mut("C20", "partition-unsorted", E + "FEM/_group_elem.py", "        elements = np.sort(np.asarray(elements, dtype=int))", "        elements = np.asarray(elements, dtype=int)", None)
 mut("C20", "ghost-any-axis", E + "FEM/_mesher.py", "mask = np.isin(other_connect, nodes_arr).any(axis=1)", "mask = np.isin(other_connect, nodes_arr).all(axis=1)", "__Get_partitioned_groupElems")
 
+# ---------------------------------------------------------------- rules added after the first seeded round
+mut("C04", "lagrange-col-unscaled", E + "Simulations/Solvers.py", "    A[dofs_Dirichlet, linesDirichlet] = alpha\n", "    A[dofs_Dirichlet, linesDirichlet] = 1.0\n", "__Solver_2")
+mut("C02", "timo2d-shear-sign", E + "FEM/Elems/_beam.py", "            B_e_pg[:, :, 2, idx_rz] -= Nu_pg  # -θ", "            B_e_pg[:, :, 2, idx_rz] += Nu_pg  # -θ", "Get_beam_B_e_pg")
+mut("C01", "eb3d-torsion-on-ry", E + "FEM/Elems/_beam.py", "            B_e_pg[:, :, 1, idx_rx] = dN_e_pg[:, :, 0]  # torsion: drx/dx (Lagrange)", "            B_e_pg[:, :, 1, idx_rx + 1] = dN_e_pg[:, :, 0]  # torsion: drx/dx (Lagrange)", "Get_beam_B_e_pg")
+mut("C09", "beam-lineload-row", E + "Simulations/_beam.py", "                N_e_pg[:, :, row, :],", "                N_e_pg[:, :, u, :],", "add_lineLoad")
+mut("C09", "nodal-load-wrong-order", E + "Simulations/_simu.py", "                    eval_n[nodes] = values[u]\n                    eval_e = eval_n[connect]  # (Ne, nPe)", "                    eval_n[np.sort(nodes)] = values[u]\n                    eval_e = eval_n[connect]  # (Ne, nPe)", "__Bc_Integration_Dim")
+mut("C11", "param-get-no-copy", E + "Utilities/_params.py", "        return copy.copy(instance.__dict__[self.__name])", "        return instance.__dict__[self.__name]", "__get__")
+mut("C11", "param-set-early-return", E + "Utilities/_params.py", "        instance.__dict__[self.__name] = value\n        if isinstance(instance, Updatable):", "        instance.__dict__[self.__name] = value\n        if np.ndim(value) == 0:\n            return\n        if isinstance(instance, Updatable):", "__set__")
+mut("C14", "staggered-keep-damage-memo", E + "Simulations/_phasefield.py", "            u_np1 = self.__Solve_elastic()\n            # new displacement -> new damage matrices\n            self.__updatedDamage = False", "            u_np1 = self.__Solve_elastic()\n            # new displacement -> new damage matrices", "PhaseField.Solve")
+mut("C15", "save-records-last-mesh", E + "Simulations/_simu.py", '        iter["indexMesh"] = self.__indexMesh\n', '        iter["indexMesh"] = self.__NindexMesh\n', "Set_Iter")
+mut("C16", "field-e-sum", E + "Models/_utils.py", "                    field_e_pg(groupElem), result, coef\n                ).mean(1)", "                    field_e_pg(groupElem), result, coef\n                ).sum(1)", "Result_strain_or_stress_field_e")
+mut("C16", "reaction-parabolic-as-newmark", E + "Simulations/_simu.py", "        if self.algo == AlgoType.parabolic:\n            reaction[dofs] += C[dofs] @ self._Get_v_n(problemType)", "        if self.algo == AlgoType.newmark:\n            reaction[dofs] += C[dofs] @ self._Get_v_n(problemType)", "Calc_Reaction")
+mut("C18", "path-tangent-weight", E + "FEM/Operators/NonLinear.py", "                d2Wde_quad += (w * s / coefK) * material.Compute_d2Wde(state)", "                d2Wde_quad += (w / coefK) * material.Compute_d2Wde(state)", "TimeQuadratureStressTensor")
+mut("C19", "condense-sign", E + "Models/InElastic/_behavior.py", "        return C_in - TensorProd(c_iz, c_zi) / c_zz", "        return C_in + TensorProd(c_iz, c_zi) / c_zz", "__Condense")
+mut("C19", "jacobian-dR-at-old-state", E + "Models/InElastic/_behavior.py", "            dG_e_pg = u_e_pg[..., nz, None, None]\n            alpha_e_pg = z_e_pg[..., A][..., 0]", "            dG_e_pg = u_e_pg[..., nz, None, None]\n            alpha_e_pg = zOld_e_pg[..., A][..., 0]", "__Jacobian")
+mut("C17", "r-inplace-on-history", E + "Models/_phasefield.py", "        # J/m3\n        if self.regularization == self.ReguType.AT1:\n            f = 2 * PsiP_e_pg - ((3 * Gc) / (8 * l0))", "        # J/m3\n        if self.regularization == self.ReguType.AT1:\n            PsiP_e_pg *= 2\n            f = PsiP_e_pg - ((3 * Gc) / (8 * l0))", "Get_f_e_pg")
+same("C19", "condense-rewrite", E + "Models/InElastic/_behavior.py", "        return C_in - TensorProd(c_iz, c_zi) / c_zz", "        return C_in - TensorProd(c_iz / c_zz, c_zi)")
+same("C16", "reaction-explicit-full-tuple", E + "Simulations/_simu.py", "        elif self.algo in AlgoType.Get_Hyperbolic_Types():\n            reaction[dofs] += C[dofs]", "        elif self.algo in (AlgoType.newmark, AlgoType.midpoint, AlgoType.hht, AlgoType.hht_newmark, AlgoType.euler_implicit, AlgoType.euler_explicit):\n            reaction[dofs] += C[dofs]")
+same("C11", "param-set-reordered", E + "Utilities/_params.py", "        instance.__dict__[self.__name] = value\n        if isinstance(instance, Updatable):\n            instance.Need_Update()", "        if isinstance(instance, Updatable):\n            instance.Need_Update()\n        instance.__dict__[self.__name] = value")
+same("C14", "staggered-need-update", E + "Simulations/_phasefield.py", "        # damage and displacement field will change thats why we need to update the assembled matrices\n        self.__updatedDamage = False\n        self.__updatedDisplacement = False", "        # damage and displacement field will change thats why we need to update the assembled matrices\n        self.Need_Update()")
+same("C15", "set-iter-unconditional", E + "Simulations/_simu.py", "        if indexMesh != self.__indexMesh:\n            self.__indexMesh = indexMesh\n            self.__Update_mesh(indexMesh)", "        self.__indexMesh = indexMesh\n        self.__Update_mesh(indexMesh)")
+same("C09", "nodal-load-via-dict", E + "Simulations/_simu.py", "                    eval_n = np.zeros(Nn, dtype=float)\n                    eval_n[nodes] = values[u]", "                    eval_n = np.zeros(Nn)\n                    eval_n[nodes] = np.asarray(values[u])")
+
 
 # --- generated behaviour-preserving edits: rename every local variable of an anchored function
 RENAME = [
@@ -158,6 +181,13 @@ RENAME = [
     ("C18", "EasyFEA.Models.HyperElastic._laws.HolzapfelOgden.Compute_d2Wde"), ("C18", "EasyFEA.Models.HyperElastic._laws.NeoHookean.Compute_dWde"),
     ("C19", "EasyFEA.Models.InElastic._behavior.Behavior.Integrate"), ("C19", "EasyFEA.Models.InElastic._behavior.Behavior.__Flow"), ("C19", "EasyFEA.Simulations._inelastic.InElastic.Construct_local_matrix_system"), ("C19", "EasyFEA.Simulations._inelastic.InElastic.Save_Iter"),
     ("C20", "EasyFEA.Simulations._simu._Simu.Calc_Reaction"), ("C20", "EasyFEA.Simulations._simu._Simu.Calc_Energy"), ("C20", "EasyFEA.FEM._mesher.Mesher.__Get_partitioned_groupElems"), ("C20", "EasyFEA.FEM._mesh.Mesh.Merge"), ("C20", "EasyFEA.FEM._group_elem._GroupElem._Set_partitioned_data"),
+    ("C02", "EasyFEA.FEM.Elems._beam._Timoshenko.Get_beam_B_e_pg"), ("C01", "EasyFEA.FEM.Elems._beam._EulerBernoulli.Get_beam_B_e_pg"), ("C02", "EasyFEA.FEM.Elems._beam._EulerBernoulli.Get_Hermitian_ddN_e_pg"),
+    ("C09", "EasyFEA.Simulations._beam.Beam.add_lineLoad"), ("C11", "EasyFEA.Utilities._params._Parameter.__set__"),
+    ("C14", "EasyFEA.Simulations._phasefield.PhaseField.Solve"), ("C14", "EasyFEA.Simulations._phasefield.PhaseField.Set_Iter"), ("C14", "EasyFEA.Simulations._phasefield.PhaseField.Get_K_C_M_F"),
+    ("C15", "EasyFEA.Simulations._simu._Simu.Set_Iter"), ("C16", "EasyFEA.Models._utils.Result_strain_or_stress_field_e"), ("C16", "EasyFEA.Simulations._simu._Simu.Calc_Reaction"),
+    ("C17", "EasyFEA.Models._phasefield.PhaseField.Get_f_e_pg"), ("C17", "EasyFEA.Simulations._phasefield.PhaseField.__Construct_Damage_Matrix"),
+    ("C18", "EasyFEA.FEM.Operators.NonLinear.TimeQuadratureStressTensor"),
+    ("C19", "EasyFEA.Models.InElastic._behavior.Behavior.__Residual"), ("C19", "EasyFEA.Models.InElastic._behavior.Behavior.__Jacobian"), ("C19", "EasyFEA.Models.InElastic._behavior.Behavior.__Condense"),
     ("C06", "EasyFEA.FEM._group_elem._GroupElem._Eval_Functions"), ("C06", "EasyFEA.FEM.Elems._tri.TRI6._N"), ("C06", "EasyFEA.FEM._group_elem._GroupElem.Get_dN_pg"),
 ]
 
@@ -212,7 +242,34 @@ def rename_locals_edit(repo_root, qualname):
 rename_locals_edit._repo = {}
 
 
+def seeded_edits(props):
+    """the sub-agent seeded changes kept under /verif/seeded: each is a breaking edit for the properties recorded in
+    its meta.json under "detected_by" (the matrix is re-established by tools/seed_matrix.py)"""
+    out = []
+    sd = os.path.join(HERE, "seeded")
+    if not os.path.isdir(sd):
+        return out
+    for d in sorted(os.listdir(sd)):
+        mp = os.path.join(sd, d, "meta.json")
+        pp = os.path.join(sd, d, "patch.diff")
+        if not (os.path.exists(mp) and os.path.exists(pp)):
+            continue
+        try:
+            meta = json.load(open(mp))
+        except Exception:
+            continue
+        for pr in meta.get("detected_by", []):
+            if props is None or pr in props:
+                out.append(dict(prop=pr, id=f"seeded:{d}", patch=pp, file="?", old="", new="", expect=None))
+    return out
+
+
 def apply_edit(root, e):
+    if e.get("patch"):
+        p = subprocess.run(["patch", "-p1", "-s", "-f", "-d", root, "-i", e["patch"]], capture_output=True, text=True)
+        if p.returncode != 0:
+            return False, "seeded patch no longer applies: " + (p.stdout + p.stderr)[-120:]
+        return True, ""
     path = os.path.join(root, e["file"])
     with open(path) as fh:
         src = fh.read()
@@ -235,7 +292,8 @@ def run_one(e, repo_root, breaking):
             return dict(e=e["id"], prop=e["prop"], status="SKIPPED", detail=why)
         # the variant must still be syntactically valid python
         try:
-            compile(open(os.path.join(tmp, e["file"])).read(), e["file"], "exec")
+            if not e.get("patch"):
+                compile(open(os.path.join(tmp, e["file"])).read(), e["file"], "exec")
         except SyntaxError as x:
             return dict(e=e["id"], prop=e["prop"], status="BAD-EDIT", detail=str(x))
         env = dict(os.environ, VERIF_EVIDENCE_DIR=os.path.join(tmp, "ev"))
@@ -258,6 +316,7 @@ def run(prop, repo_root="/repo", verbose=True):
     """returns 0 when every breaking edit of `prop` is detected and every preserving edit is silent"""
     props = None if prop in (None, "all") else {prop}
     jobs = [(e, True) for e in M if props is None or e["prop"] in props] + [(e, False) for e in S if props is None or e["prop"] in props]
+    jobs += [(e, True) for e in seeded_edits(props)]
     for prop_r, qn in RENAME:
         if props is not None and prop_r not in props:
             continue
